@@ -102,11 +102,16 @@ func init() {
 				n = 250
 			}
 			prefixes := []string{"a.", "b.", "ab", "a.b.", "zz"}
+			special := r.Intn(3) == 0
 			var ids []string
 			for i := 0; i < n; i++ {
 				id := fmt.Sprintf("%s%d", pick(r, prefixes...), i)
 				if r.Intn(10) == 0 {
 					id += ".x"
+				}
+				if special && r.Intn(3) == 0 {
+					// ids that differ from others only by letter case, or contain characters that SQL pattern matching treats specially
+					id = fmt.Sprintf("%s%d", pick(r, "A.", "B.", "a_", "a%", `a\`, "Zz", `a.\`), i)
 				}
 				ids = append(ids, id)
 				var tags map[string]string
@@ -155,6 +160,9 @@ func init() {
 				}
 				if len(ids) > 0 && r.Intn(8) == 0 {
 					q.Id = ids[r.Intn(len(ids))]
+				}
+				if special && r.Intn(2) == 0 {
+					q.Id = pick(r, "a_*", "a%*", `a\*`, "A.*", "zz*", "Zz*", "a.*", "*_*", `*\*`, "a_1", `a.\*`)
 				}
 				c.traverse(s, helper, q, ids)
 			}
